@@ -319,7 +319,7 @@ func TestHonestStream(t *testing.T) {
 	}
 	rapid.Check(t, func(t *rapid.T) {
 		ia := rapid.IntRange(0, 5).Draw(t, "idA")
-		ib := rapid.IntRange(0, 5).Draw(t, "idB") // may equal idA: a node may talk to a node with the same key
+		ib := (ia + 1 + rapid.IntRange(0, 4).Draw(t, "idB")) % 6 // a different identity
 		eph := drawEphDistinct(t, 2, "eph")
 		plans := [2]dirPlan{genDir(t, "ab", maxTotal), genDir(t, "ba", maxTotal)}
 		var bases [2]uint64
